@@ -1,0 +1,42 @@
+//go:build verif
+
+// Machine-checked contracts for this package (guard: build tag `verif`; this file contains comments only).
+// Read by /verif/bin/govc: each `//@ unit` section is one verification unit (the functions matching `filter`,
+// verified against the contracts of the section; callees are used through their contracts only).
+
+package templates
+
+//@ unit templates_handler props=C12 filter=`templates\.Templates\)\.ServeHTTP$`
+//@ ghost pending int
+//@ ghost forwarded int
+//@ ghost nextCalls int
+//@ ghost nextRet int
+
+//@ extern invoke:(github.com/tmpim/casket/caskethttp/httpserver.Handler).ServeHTTP
+//@   modifies ghost:nextCalls, ghost:nextRet
+//@   may_panic
+//@   ensures nextCalls == old(nextCalls) + 1 && nextRet == result0
+//@ extern (github.com/tmpim/casket/caskethttp/httpserver.Path).Matches
+//@   pure
+//@ extern (*github.com/tmpim/casket/caskethttp/httpserver.ResponseBuffer).Buffered
+//@   modifies ghost:pending
+//@   ensures (result ==> pending == 1) && (!result ==> pending == 0)
+//@ extern net/http.ServeContent
+//@   modifies ghost:forwarded
+//@   ensures forwarded == old(forwarded) + 1
+//@ extern github.com/tmpim/casket/caskethttp/httpserver.NewResponseBuffer
+//@   ensures result != nil
+//@ extern text/template.New
+//@   ensures result != nil
+//@ extern (*text/template.Template).Parse
+//@   ensures result1 == nil ==> result0 != nil
+//@ extern invoke:(net/http.ResponseWriter).Header
+//@   ensures result != nil
+
+//@ func (Templates).ServeHTTP
+//@   may_panic
+//@   requires r != nil && r.URL != nil && t.Next != nil && t.BufPool != nil && w != nil && pending == 0
+//@   ensures [next_once] nextCalls == old(nextCalls) + 1
+//@   ensures [H1_written_or_forwarded] (pending == 1 && nextRet == 0) ==> (forwarded == old(forwarded) + 1 || result0 >= 400)
+//@   ensures [unbuffered_passthrough] pending == 0 ==> forwarded == old(forwarded)
+//@   loop 1 invariant 0 <= #i && #i <= len(t.Rules) && pending == 0 && forwarded == old(forwarded) && nextCalls == old(nextCalls) && r.URL != nil
